@@ -29,8 +29,8 @@ BIN_DIR = os.path.join(PROBES, "src", "bin")
 EXPECTED = os.path.join(PROBES, "expected.json")
 LEAN_MOD = os.path.join(runner.LEAN, "Orx", "Props", "C14.lean")
 GENERATED = os.path.join(runner.LEAN, "Orx", "Generated", "Bounds.lean")
-TIE = os.path.join(VERIF, "replays", "C14-tie.txt")
-EVIDENCE = os.path.join(VERIF, "evidence", "C14.json")
+TIE = os.path.join(runner.OUT, "replays", "C14-tie.txt")
+EVIDENCE = os.path.join(runner.OUT, "evidence", "C14.json")
 ALLOWED_AXIOMS = {"propext", "Classical.choice", "Quot.sound"}
 JOBS = 16
 
@@ -369,8 +369,8 @@ def main(tier="quick", seed=1):
         if k is not None:
             two_known.setdefault(k["id"], (k, []))[1].append((c, why))
         else:
-            os.makedirs(os.path.join(VERIF, "replays"), exist_ok=True)
-            rp = os.path.join(VERIF, "replays", "C14-violation.txt")
+            os.makedirs(os.path.join(runner.OUT, "replays"), exist_ok=True)
+            rp = os.path.join(runner.OUT, "replays", "C14-violation.txt")
             if not any(v[0] == rp for v in violations):
                 with open(rp, "w") as f:
                     f.write("# property C14\n# %s\n# replay: the case below on the harness (./check C08 --replay %s)\n" % (why, rp))
